@@ -18,7 +18,8 @@ def who(request, encoding='utf-8'):
     ip = request.remote.ip
     agent = request.headers.get('User-Agent', '')
 
-    return sha(f'{ip}{agent}'.encode(encoding)).hexdigest()
+    # keep the two parts apart: '10.0.0.1' + '2x' must not hash like '10.0.0.12' + 'x'
+    return sha(f'{ip}|{agent}'.encode(encoding)).hexdigest()
 
 
 def create_session(request):
